@@ -97,6 +97,13 @@ CHECKS.update({
         note='accuracy of the quadrature on the integrand and degenerate (tangent/parallel) rays are runtime numerics, not decided', ref='3 C18'),
 })
 
+CHECKS.update({
+    'C14': dict(
+        level='other', technique='finite-domain evaluation of the quoting/layout decision code in the abstract interpreter; independent CIF 1.1 lexer as oracle; known-findings list',
+        text='Static, finite decision space enumerated: the writer (Chunk.write, Loop.write, _format_value, _quotes_for_string_value, _write_comment, name setter) is folded over all strings up to length 3 (thorough: 4) from an alphabet with one representative per CIF 1.1 character class plus the reserved words; every produced fragment must be read by an independent CIF 1.1 lexer as exactly the supplied value(s); output is ASCII; comments never leak; _su columns from stddevs; author ids unique and role ids resolvable. One known finding (text field containing a line starting with ;).',
+        note='trusts spec/cif11.py; number formatting is str(float); tags are outside the value quantifier', ref='3 C14'),
+})
+
 NA_REASON = 'check not built yet (planned: see DESIGN.md section 3)'
 
 
